@@ -68,6 +68,7 @@ func runC06(c *Ctx) {
 		"called through that variant the operation ignores an argument (patterns, limits, a flag) or uses one argument for two — the values returned and the resulting tree are not those of the operation the caller asked for")
 	// Z24: who may call the bare copy workers
 	c.c06WorkersOnlyBehindTheGuards()
+	c.c06CancellationIsReported()
 	if os.Getenv("GUCHECK_EXPLORE") == "forwarders" {
 		c.exploreForwarders()
 	}
@@ -1901,4 +1902,89 @@ func (c *Ctx) c06WorkersOnlyBehindTheGuards() {
 	}
 	c.check(n >= 2 && bad == "", "Z24", fsPkgRel+"/workers-behind-the-guards", "-", "the workers are called by the guarded entry point (and by each other) only",
 		"a copy worker is called directly at "+bad+": that variant copies without the guards — onto itself (`f` to `f`, `d/f` to `d/./f`, a hard link) it truncates its source on the OS backend, and it does not create the missing parent directory of the destination, which the in-memory backend creates by itself: the two backends part")
+}
+
+// c06CancellationIsReported (Z25): "Whatever its arguments, a call terminates … on success, failure or cancellation" and "the
+// values returned, the error kinds … are those of the reference model": a listing or a walk that was cancelled half-way says
+// so; it does not hand back what it had got to as if it were the whole. Decided for package filesystem (the lock apart):
+// from the side where a context gate (DetermineContextError) answered an error, every return that can be reached hands that
+// error back — a `break` out of the loop to a plain `return nil` does not.
+func (c *Ctx) c06CancellationIsReported() {
+	c.rule("Z25", "in package filesystem, where a context gate answered an error every return that can be reached from there hands that error back: an operation cancelled half-way never reports success with a partial result", 40)
+	for _, f := range c.srcFuncs(fsPkgRel) {
+		if f.Blocks == nil || strings.HasSuffix(c.Fset.Position(f.Pos()).Filename, "lockfile.go") {
+			continue
+		}
+		k := f.Signature.Results().Len() - 1
+		if k < 0 || !isErrorType(f.Signature.Results().At(k).Type()) {
+			continue
+		}
+		n := 0
+		allInstrs(f, func(in ssa.Instruction) {
+			g, ok := in.(*ssa.Call)
+			if !ok || !strings.HasSuffix(calleeFull(&g.Call), "parallelisation.DetermineContextError") {
+				return
+			}
+			var e ssa.Value = g
+			bad := ""
+			tested := false
+			for _, b := range f.Blocks {
+				ifi, ok := b.Instrs[len(b.Instrs)-1].(*ssa.If)
+				if !ok {
+					continue
+				}
+				x, nilSucc, isNil := nilTest(ifi)
+				if !isNil || !sameValue(x, e) {
+					continue
+				}
+				tested = true
+				start := b.Succs[1-nilSucc]
+				other := func(i ssa.Instruction) bool {
+					r, ok := i.(*ssa.Return)
+					if !ok || len(r.Results) <= k {
+						return false
+					}
+					for _, l := range sources(r.Results[k], deriveOpts{through: func(n string) bool { return strings.Contains(strings.ToLower(n), "convert") }}) {
+						if l == e || sameValue(l, e) {
+							return false
+						}
+					}
+					// results kept in memory (deferred calls): the stored value decides
+					if u, isLoad := r.Results[k].(*ssa.UnOp); isLoad {
+						if a, isAlloc := u.X.(*ssa.Alloc); isAlloc {
+							for _, st := range storesToDeep(a) {
+								if st == e || sameValue(st, e) {
+									return false
+								}
+							}
+						}
+					}
+					return true
+				}
+				var hit ssa.Instruction
+				if other(start.Instrs[0]) {
+					hit = start.Instrs[0]
+				} else {
+					hit = pathPruned(f, start.Instrs[0], func(ssa.Instruction) bool { return false }, other, nil)
+				}
+				if hit != nil {
+					bad = c.ipos(hit)
+				}
+			}
+			if !tested {
+				return
+			}
+			key := fname(outermost(f)) + "/cancelled-is-reported"
+			if f.Parent() != nil {
+				key = fname(f) + "/cancelled-is-reported"
+			}
+			if n > 0 {
+				key += "#" + strconv.Itoa(n)
+			}
+			n++
+			c.FuncsSeen[fname(outermost(f))] = true
+			c.check(bad == "", "Z25", key, c.ipos(g), "every return beyond the failing side of the gate hands the context error back",
+				"from the side where the context was found ended the function can reach the return at "+bad+", which reports something else — success, typically, after a `break` out of the loop: a listing or a walk cancelled half-way returns a partial result and no error")
+		})
+	}
 }
